@@ -16,6 +16,7 @@ import base64
 import binascii
 import collections
 import contextlib
+import functools
 import io
 import itertools
 import re
@@ -108,6 +109,9 @@ STDLIB = {"re.compile": re.compile, "re.escape": re.escape, "re.sub": re.sub, "r
           "textwrap.wrap": textwrap.wrap, "textwrap.fill": textwrap.fill, "textwrap.TextWrapper": textwrap.TextWrapper,
           "urllib.parse.quote": urllib.parse.quote, "urllib.parse.unquote": urllib.parse.unquote, "urllib.parse.unquote_to_bytes": urllib.parse.unquote_to_bytes,
           "urllib.parse.quote_from_bytes": urllib.parse.quote_from_bytes, "collections.deque": collections.deque, "io.BytesIO": io.BytesIO,
+          "dict.fromkeys": dict.fromkeys, "bytes.fromhex": bytes.fromhex, "bytes.maketrans": bytes.maketrans, "str.maketrans": str.maketrans, "int.from_bytes": int.from_bytes,
+          "functools.reduce": functools.reduce, "itertools.groupby": itertools.groupby, "itertools.chain": itertools.chain,
+          "itertools.takewhile": itertools.takewhile, "itertools.dropwhile": itertools.dropwhile, "itertools.islice": itertools.islice,
           "binascii.b2a_base64": binascii.b2a_base64, "binascii.a2b_base64": binascii.a2b_base64,
           "base64.b64encode": base64.b64encode, "base64.b64decode": base64.b64decode}
 _RE_FLAGS = {"re." + n: getattr(re, n) for n in ("I", "IGNORECASE", "M", "MULTILINE", "S", "DOTALL", "X", "VERBOSE", "A", "ASCII")}
@@ -163,6 +167,8 @@ def peval(node: ast.AST, env: Optional[Dict[str, object]] = None, funcs: Optiona
             base0 = peval(node.value, env, funcs) if isinstance(node.value, (ast.Name, ast.Attribute)) else None
         except NotPure:
             base0 = None
+        if isinstance(base0, Model):
+            return _guard(lambda: getattr(base0, node.attr))
         for typ, allowed in _OBJECT_METHODS.items():
             if isinstance(base0, typ) and node.attr in allowed:
                 return getattr(base0, node.attr)
@@ -265,7 +271,9 @@ def peval(node: ast.AST, env: Optional[Dict[str, object]] = None, funcs: Optiona
         return lam
     if isinstance(node, ast.Call):
         if node.keywords and not (isinstance(node.func, ast.Attribute) and node.func.attr in ("encode", "decode", "to_bytes", "sub", "split", "subn")) \
-                and not ((dotted(node.func) or "") in STDLIB) and not ((dotted(node.func) or "") in ("sorted", "min", "max", "enumerate", "int", "dict", "sum", "str", "bytes")):
+                and not ((dotted(node.func) or "") in STDLIB) and not ((dotted(node.func) or "") in ("sorted", "min", "max", "enumerate", "int", "dict", "sum", "str", "bytes")) \
+                and not ((dotted(node.func) or "") in funcs) and not (callable(env.get(dotted(node.func) or "", None))) \
+                and not (isinstance(node.func, ast.Attribute) and isinstance(node.func.value, (ast.Name, ast.Attribute, ast.Call))):
             raise NotPure("keywords in call " + src(node))
         kw = {k.arg: ev(k.value) for k in node.keywords if k.arg}
         fn = dotted(node.func)
@@ -276,14 +284,14 @@ def peval(node: ast.AST, env: Optional[Dict[str, object]] = None, funcs: Optiona
             else:
                 args.append(ev(a))
         if fn is not None and fn in funcs:
-            return _guard(lambda: funcs[fn](*args))
+            return _guard(lambda: funcs[fn](*args, **kw))
         if fn is not None and fn in STDLIB and fn not in env:
             if fn.startswith("re.") and fn != "re.escape" and fn != "re.compile" and len(args) > 1 and callable(args[1]) \
                     and getattr(args[1], "__name__", "") not in ("lam", "_interp"):
                 raise NotPure("callable replacement")
             return _guard(lambda: STDLIB[fn](*args, **kw))
         if fn is not None and fn in env and callable(env[fn]):
-            return _guard(lambda: env[fn](*args))
+            return _guard(lambda: env[fn](*args, **kw))
         if fn == "map" and len(args) == 2 and callable(args[0]):
             return _guard(lambda: [args[0](x) for x in args[1]])
         if fn in _BUILTINS:
@@ -294,13 +302,18 @@ def peval(node: ast.AST, env: Optional[Dict[str, object]] = None, funcs: Optiona
             if fn in ("range",) and args and max(abs(int(x)) for x in args) > 1 << 20:
                 raise NotPure("range too large")
             return _guard(lambda: _BUILTINS[fn](*args, **kw))
-        if isinstance(node.func, ast.Attribute) and isinstance(node.func.value, ast.Name):
+        if isinstance(node.func, ast.Attribute) and (isinstance(node.func.value, (ast.Name, ast.Attribute)) or
+                                                   (isinstance(node.func.value, ast.Call) and not any(isinstance(x, ast.Attribute) and x.attr in ("pop", "popleft") for x in ast.walk(node.func.value)))):
             try:
                 recv0 = ev(node.func.value)
             except NotPure:
                 recv0 = None
             if isinstance(recv0, Model):
-                return _guard(lambda: getattr(recv0, node.func.attr)(*args))
+                return _guard(lambda: getattr(recv0, node.func.attr)(*args, **kw))
+            if isinstance(node.func.value, ast.Call) and recv0 is not None and not isinstance(recv0, Model):
+                # receiver already evaluated once: continue with the value, never evaluate the call twice
+                node = ast.Call(func=ast.Attribute(value=ast.Constant(value=recv0), attr=node.func.attr, ctx=ast.Load()), args=node.args, keywords=node.keywords)
+                fn = None
         if isinstance(node.func, ast.Attribute) and node.func.attr == "pop" and not kw:
             recv = ev(node.func.value)
             if isinstance(recv, (list, collections.deque)) and not (isinstance(recv, collections.deque) and args):     # local work-list of the evaluated block
@@ -482,6 +495,61 @@ class FollowModule(dict):
         return self[name] if name in self else default
 
 
+def bind_methods(env: Dict[str, object], classes, funcs=None, skip: Iterable[str] = (), only_missing: bool = True) -> Dict[str, object]:
+    """Bind ``self.<method>`` of the given ClassDef nodes (bases first, most derived last) in the live environment ``env`` as
+    callables that interpret the method body: locals are private to the call, ``self.*`` entries are shared (written back), so an
+    evaluated method can call its private helpers as if they were inlined.  Entries already present (models) win."""
+    skip = set(skip)
+    preset = set(env)
+
+    def make(fn):
+        params = [a.arg for a in fn.args.args][1:]
+        defaults = fn.args.defaults
+        gen_flag = []
+
+        def _interp(*args, **kw):
+            if not gen_flag:
+                gen_flag.append(any(isinstance(n, (ast.Yield, ast.YieldFrom)) for n in walk_local(fn)))
+            is_gen = gen_flag[0]
+            local = dict(env)
+            vals = list(args)
+            names = params[:len(vals)]
+            for k, v in kw.items():
+                if k not in params:
+                    raise AnalysisError(f"method {fn.name}: unexpected keyword {k}")
+            rest = params[len(vals):]
+            for i, pn in enumerate(rest):
+                if pn in kw:
+                    local[pn] = kw[pn]
+                else:
+                    di = len(defaults) - (len(params) - params.index(pn))
+                    if di < 0:
+                        raise AnalysisError(f"method {fn.name}: missing argument {pn}")
+                    local[pn] = peval(defaults[di], dict(env), funcs)
+            local.update(zip(names, vals))
+            r = eval_block(fn.body, local, funcs=funcs)
+            for k in list(local):
+                if k.startswith("self.") or k.startswith("self"):
+                    if k.startswith("self."):
+                        env[k] = local[k]
+            for k in [k for k in env if k.startswith("self.") and k not in local]:
+                del env[k]              # `del self.x` inside the helper
+            if r.raised:
+                raise Raised(RuntimeError(r.raised))
+            return list(r.out) if is_gen else r.value
+        _interp.__name__ = "_interp"
+        _interp.method_name = fn.name
+        return _interp
+    for c in classes:
+        for st in c.body:
+            if isinstance(st, ast.FunctionDef) and st.name not in skip and not any(isinstance(d, ast.Name) and d.id in ("property", "staticmethod", "classmethod") for d in st.decorator_list):
+                key = "self." + st.name
+                if only_missing and key in preset:
+                    continue
+                env[key] = make(st)
+    return env
+
+
 def class_env(classes, env: Dict[str, object], funcs=None, prefix: str = "self.") -> Dict[str, object]:
     """Class-level constants (``name = <pure expr>``, e.g. a precompiled regex) of the given ClassDef nodes - base classes
     first, most derived last - as ``{"self.name": value}`` on top of ``env`` (a copy is returned)."""
@@ -508,6 +576,10 @@ def class_env(classes, env: Dict[str, object], funcs=None, prefix: str = "self."
 
 
 # ---- loop-free block evaluation -------------------------------------------------------------------------
+
+# calls that only report (logging / warnings): no effect on the evaluated behaviour, skipped as statements
+_DIAGNOSTIC_CALLS = {"log.msg", "log.err", "log.deferr", "warnings.warn", "warnings.warn_explicit", "print", "logger.debug", "logger.info", "logger.warning", "logger.error"}
+
 
 class BlockResult:
     def __init__(self):
@@ -546,9 +618,26 @@ def eval_block(stmts: Sequence[ast.stmt], env: Dict[str, object], sink: Callable
             v = _pe(st.value, env, funcs)
             if kind:
                 _emit(res, kind, v)
-            elif isinstance(st.target, ast.Name) and st.target.id in env:
-                binop = ast.BinOp(left=ast.Name(id=st.target.id, ctx=ast.Load()), op=st.op, right=ast.Constant(value=v))
-                env[st.target.id] = _pe(binop, env, funcs)
+            elif (isinstance(st.target, ast.Name) and st.target.id in env) or (isinstance(st.target, ast.Attribute) and dotted(st.target) in env):
+                key = st.target.id if isinstance(st.target, ast.Name) else dotted(st.target)
+                cur = env[key]
+                if isinstance(cur, (list, bytearray, collections.deque)) and isinstance(st.op, ast.Add):
+                    try:
+                        cur.extend(v)           # in-place, exactly as `list += iterable`
+                    except TypeError as e:
+                        raise BlockRaised(f"statement raises during finite evaluation: {src(st)[:80]}", e)
+                else:
+                    binop = ast.BinOp(left=ast.Constant(value=cur), op=st.op, right=ast.Constant(value=v))
+                    env[key] = _pe(binop, env, funcs)
+            elif isinstance(st.target, ast.Subscript):
+                cont = _pe(st.target.value, env, funcs)
+                k = _pe(st.target.slice, env, funcs) if not isinstance(st.target.slice, ast.Slice) else None
+                if k is None or not isinstance(cont, (list, dict, bytearray)):
+                    raise AnalysisError("block evaluation: unsupported augmented assignment " + src(st))
+                try:
+                    cont[k] = _pe(ast.BinOp(left=ast.Constant(value=cont[k]), op=st.op, right=ast.Constant(value=v)), env, funcs)
+                except (KeyError, IndexError) as e:
+                    raise BlockRaised(f"statement raises during finite evaluation: {src(st)[:80]}", e)
             else:
                 raise AnalysisError("block evaluation: unsupported augmented assignment " + src(st))
         elif isinstance(st, ast.If):
@@ -571,6 +660,8 @@ def eval_block(stmts: Sequence[ast.stmt], env: Dict[str, object], sink: Callable
             res.flow = "break"
         elif isinstance(st, ast.Expr) and isinstance(st.value, ast.Yield):
             res.out.append(_pe(st.value.value, env, funcs) if st.value.value is not None else None)   # generator body: yielded values are the output
+        elif isinstance(st, ast.Expr) and isinstance(st.value, ast.YieldFrom):
+            res.out.extend(list(_pe(st.value.value, env, funcs)))
         elif isinstance(st, ast.FunctionDef) and not st.decorator_list:
             env[st.name] = interp(st, funcs, env)      # closure over the live environment (copied at call time)
         elif isinstance(st, ast.Expr) and isinstance(st.value, ast.Call):
@@ -591,7 +682,7 @@ def eval_block(stmts: Sequence[ast.stmt], env: Dict[str, object], sink: Callable
                     raise BlockRaised(f"statement raises during finite evaluation: {src(st)[:80]} ({e!r})", e)
             elif name in record:
                 res.calls.append((name, tuple(_pe(a, env, funcs) for a in call.args)))
-            elif name in ignore:
+            elif name in ignore or name in _DIAGNOSTIC_CALLS:
                 continue
             elif not call.keywords and ((name in env and callable(env[name])) or (funcs is not None and name in funcs)):
                 target = env[name] if (name in env and callable(env[name])) else funcs[name]
@@ -627,9 +718,9 @@ def eval_block(stmts: Sequence[ast.stmt], env: Dict[str, object], sink: Callable
                         del cont[_pe(t.slice, env, funcs)]
                     except (KeyError, IndexError) as e:
                         raise BlockRaised(f"statement raises during finite evaluation: {src(st)[:80]}", e)
-        elif isinstance(st, ast.Delete) and all(isinstance(t, ast.Name) for t in st.targets):
+        elif isinstance(st, ast.Delete) and all(isinstance(t, (ast.Name, ast.Attribute)) and dotted(t) for t in st.targets):
             for t in st.targets:
-                env.pop(t.id, None)
+                env.pop(dotted(t), None)
         elif isinstance(st, ast.For):
             try:
                 items = iter(_pe(st.iter, env, funcs))     # lazily: the body may advance the same iterator
@@ -684,6 +775,8 @@ def eval_block(stmts: Sequence[ast.stmt], env: Dict[str, object], sink: Callable
                     names = [dotted(e) for e in (h.type.elts if isinstance(h.type, ast.Tuple) else [h.type])] if h.type is not None else None
                     if names is None or type(br.exc).__name__ in names or any(n in ("Exception", "BaseException") for n in names) \
                             or any(n in [c.__name__ for c in type(br.exc).__mro__] for n in names):
+                        if h.name:
+                            env[h.name] = br.exc
                         eval_block(h.body, env, sink, funcs, record, ignore, res)
                         break
                 else:
